@@ -3,7 +3,7 @@
    [spec] is whatever list of (eigenvalue, eigenvector) pairs the numerical
    solver returns, IN ANY ORDER; [s] is the n_components request. *)
 From Coq Require Import List Reals Sorted Permutation QArith.
-From FDAV Require Import Base.Num Model.Eigen Lemmas.Eigen.
+From FDAV Require Import Base.Num Model.Eigen Lemmas.Eigen Gen.Select Lemmas.GenSelect.
 Import ListNotations.
 Local Open Scope R_scope.
 
@@ -110,3 +110,15 @@ Example C01_example :
   map fst (compute_eigen opsQ [(1#1, [1#1]); (-1#2, [0#1]); (3#1, [2#1]); (2#1, [5#1])] (SelFrac (7#10)))
   = [3#1; 2#1]%Q.
 Proof. vm_compute. reflexivity. Qed.
+
+(* ---------- the selection rule as TRANSLATED from /repo/FDApy/misc/utils.py on this run (Gen/Select.v) ----------
+   _select_number_eigencomponents, as the source reads now, returns the number of components [npc] that the theorems
+   above are about: the integer itself, every eigenvalue for None, and for a fraction p < 1 one more than the number of
+   cumulated shares below p (spectrum with positive total); a float >= 1 is rejected (ValueError). *)
+Theorem C01_source_selection_rule : forall s evs,
+  (forall p, s = SelFrac p -> p < 1 /\ 0 < total opsR evs) -> gen_npc opsR s evs = Some (npc opsR s evs).
+Proof. exact gen_npc_is_model. Qed.
+Print Assumptions C01_source_selection_rule.
+Theorem C01_source_selection_rejects : forall p evs, 1 <= p -> gen_npc opsR (SelFrac p) evs = None.
+Proof. exact gen_npc_rejects. Qed.
+Print Assumptions C01_source_selection_rejects.
